@@ -6,6 +6,7 @@ Request:  `<ver> <method> <arg> ...`
 Reply:  `ok <header>:<hex>[;...]` | `ok -` (nothing sent) | `err <enum>` | `bad-op`. -/
 import CfVerif.Base.Proto
 import CfVerif.Model.C08
+import CfVerif.Spec.C08
 open CfVerif CfVerif.C08
 
 def parseErr? : String → Option PyErr
@@ -96,9 +97,60 @@ def parseCall? : List String → Option Call
 def showPackets (ps : List Packet) : String :=
   if ps.isEmpty then "-" else ";".intercalate (ps.map fun p => s!"{p.header}:{toHex p.data}")
 
+def b2n (b : Bool) : Nat := if b then 1 else 0
+
+/-- canonical text of a firmware command (the Python twin of the decoder in harness/corr/c08.py prints the same) -/
+def showCmd : Fw.Cmd → String
+  | .rpyt r p y t => s!"rpyt {r} {p} {y} {t}"
+  | .stop => "stop"
+  | .notifySetpointsStop ms => s!"notifySetpointsStop {ms}"
+  | .velocityWorld a b c d => s!"velocityWorld {a} {b} {c} {d}"
+  | .zDistance a b c d => s!"zDistance {a} {b} {c} {d}"
+  | .hover a b c d => s!"hover {a} {b} {c} {d}"
+  | .fullState x y z vx vy vz ax ay az q rr pr yr =>
+    let qs := ",".intercalate (q.fields.map fun (i, nb, m) => s!"{i}/{nb}/{m}")
+    s!"fullState {x} {y} {z} {vx} {vy} {vz} {ax} {ay} {az} {q.largest}:{qs} {rr} {pr} {yr}"
+  | .position a b c d => s!"position {a} {b} {c} {d}"
+  | .hlSetGroupMask g => s!"hlSetGroupMask {g}"
+  | .hlTakeoff2 g h y u d => s!"hlTakeoff2 {g} {h} {y} {b2n u} {d}"
+  | .hlLand2 g h y u d => s!"hlLand2 {g} {h} {y} {b2n u} {d}"
+  | .hlStop g => s!"hlStop {g}"
+  | .hlGoTo g r x y z yaw d => s!"hlGoTo {g} {r} {x} {y} {z} {yaw} {d}"
+  | .hlGoTo2 g r l x y z yaw d => s!"hlGoTo2 {g} {r} {l} {x} {y} {z} {yaw} {d}"
+  | .hlSpiral g s c phi r0 rf dz d => s!"hlSpiral {g} {s} {c} {phi} {r0} {rf} {dz} {d}"
+  | .hlStartTrajectory g r v i t => s!"hlStartTrajectory {g} {r} {v} {i} {t}"
+  | .hlDefineTrajectory i l t o n => s!"hlDefineTrajectory {i} {l} {t} {o} {n}"
+  | .extPosition x y z => s!"extPosition {x} {y} {z}"
+  | .extPose x y z a b c d => s!"extPose {x} {y} {z} {a} {b} {c} {d}"
+  | .shortLpp dest pl => s!"shortLpp {dest} {toHex pl}"
+  | .emergencyStop => "emergencyStop"
+  | .emergencyStopWatchdog => "emergencyStopWatchdog"
+  | .lhPersist g c => s!"lhPersist {g} {c}"
+  | .setContinousWave e => s!"setContinousWave {b2n e}"
+  | .armSystem e => s!"armSystem {b2n e}"
+  | .recoverSystem => "recoverSystem"
+
+def showLpp : Fw.Lpp → String
+  | .position x y z => s!"position {x} {y} {z}"
+  | .reboot m => s!"reboot {m}"
+  | .mode m => s!"mode {m}"
+
 def step (_ : Unit) (ws : List String) : Unit × String :=
   let r : String :=
     match ws with
+    | ["fwdecode", ver, hdr, data] =>
+      match ver.toInt?, hdr.toNat?, ofHex? data with
+      | some v, some h, some d =>
+        match Fw.decode v h d with
+        | some c => "ok " ++ showCmd c
+        | none => "ok none"
+      | _, _, _ => "bad-op"
+    | ["lppdecode", data] =>
+      match ofHex? data with
+      | some d => match Fw.decodeLpp d with
+        | some c => "ok " ++ showLpp c
+        | none => "ok none"
+      | none => "bad-op"
     | ver :: rest =>
       match ver.toInt?, parseCall? rest with
       | some v, some c =>
